@@ -546,12 +546,14 @@ func (p *parser) sync() {
 }
 
 func (p *parser) parsePrecedence(prec precedence) {
-	p.advance()
-	prefixRule := getRule(p.prev.typ).prefix
+	prefixRule := getRule(p.current.typ).prefix
 	if prefixRule == nil {
-		p.error("expected expression")
+		// Report the token without consuming it: it may be the keyword
+		// starting the next statement, where error recovery resumes.
+		p.errorAtCurrent("expected expression")
 		return
 	}
+	p.advance()
 
 	canAssign := prec <= precAssign
 	prefixRule(p, canAssign)
